@@ -72,8 +72,8 @@ pub fn scenario(u: &Unit) -> String {
                     ob(&m("pv=f*min(pv,use)"), e_pv.map(|x| x.ident(m1 * f)).unwrap_or(crate::common::f()));
                     ob(&m("chp=f*min(chp,use-pv_used)"), e_chp.map(|x| x.ident(m2 * f)).unwrap_or(crate::common::f()));
                     // cogeneration is only used once PV is exhausted: if CHP is used, PV was fully allocated
-                    ob(&m("chp_used=>pv_exhausted"), k(0.0).lt(m2).implies(m1.ident(p)));
-                    ob(&m("chp_alloc<=use-pv_alloc"), m2.le(left));
+                    ob(&m("chp_used=>pv_exhausted"), k(0.0).lt_(m2).implies(m1.ident(p)));
+                    ob(&m("chp_alloc<=use-pv_alloc"), m2.le_(left));
                 }
                 (Some(p), None) => {
                     ob(&m("pv=f*min(use,pv)"), e_pv.map(|x| x.approx(us.min_(p) * f, 3.0, us)).unwrap_or(crate::common::f()));
@@ -84,27 +84,27 @@ pub fn scenario(u: &Unit) -> String {
                 (None, None) => {}
             }
             // the reported total used production never exceeds the EPB use nor the production
-            ob(&m("epus<=use"), b.prod.epus_t[t].le(b.used.epus_t[t]));
-            ob(&m("epus<=prod"), b.prod.epus_t[t].le(b.prod.t[t]));
-            ob(&m("epus>=0"), k(0.0).le(b.prod.epus_t[t]));
+            ob(&m("epus<=use"), b.prod.epus_t[t].le_(b.used.epus_t[t]));
+            ob(&m("epus<=prod"), b.prod.epus_t[t].le_(b.prod.t[t]));
+            ob(&m("epus>=0"), k(0.0).le_(b.prod.epus_t[t]));
             // matching factor
             if mode == "off" {
                 ob(&m("f=1"), f.ident(one));
             } else {
-                ob(&m("0.5<=f<=1"), k(0.5).le(f).and(f.le(one)));
+                ob(&m("0.5<=f<=1"), k(0.5).le_(f).and(f.le_(one)));
                 let prod = b.prod.t[t];
                 let x = prod / us;
                 let formula = (x + one / x - one) / (x + one / x);
                 // x = production/use (1 when either is zero)
-                let zero_case = us.le(k(0.0)).or(prod.le(k(0.0)));
+                let zero_case = us.le_(k(0.0)).or(prod.le_(k(0.0)));
                 ob(&m("f=formula"), zero_case.clone().or(f.ident(formula)));
                 ob(&m("f=1_if_zero"), zero_case.implies(f.ident(one)));
             }
         }
         // load matching never increases self-use nor decreases grid delivery
-        ob(&tag("epus(lm)<=epus(off)"), b1.prod.epus_t[t].le(b0.prod.epus_t[t]));
-        ob(&tag("del.grid(lm)>=del.grid(off)"), b0.del.grid_t[t].le(b1.del.grid_t[t]));
-        ob(&tag("exp(lm)>=exp(off)"), b0.exp.t[t].le(b1.exp.t[t]));
+        ob(&tag("epus(lm)<=epus(off)"), b1.prod.epus_t[t].le_(b0.prod.epus_t[t]));
+        ob(&tag("del.grid(lm)>=del.grid(off)"), b0.del.grid_t[t].le_(b1.del.grid_t[t]));
+        ob(&tag("exp(lm)>=exp(off)"), b0.exp.t[t].le_(b1.exp.t[t]));
     }
     "ok".into()
 }
